@@ -16,6 +16,7 @@ import (
 // rngReader feeds crypto/rand.Reader (used by core.UUID) from the run seed.
 type rngReader struct{ r *Rng }
 
+//go:norace
 func (x rngReader) Read(p []byte) (int, error) {
 	for i := range p {
 		p[i] = byte(x.r.U64())
